@@ -184,6 +184,9 @@ class AxolotlSendLayer(AxolotlBaseLayer):
                 )
 
         if not retryCount:
+            if self.manager.load_senderkey(groupJid).isEmpty():
+                # no participant could be given the sender key (keys refused or unavailable): it still has to exist
+                self.manager.group_create_skmsg(groupJid)
             messageData = protoNode.getData()
             ciphertext = self.manager.group_encrypt(groupJid, messageData)
             mediaType = protoNode["mediatype"]
